@@ -18,11 +18,10 @@ MODULE = 'PyTough.Props.C04'
 TARGETS = ['PyTough.Props.C04', 'drv_c04']
 THEOREMS = ['Props.C04.' + t for t in [
     'fromgeo_blocks_eq_namelist', 'fromgeo_connections_eq_namelist',
-    'block_volume_formula', 'column_volume_telescopes', 'total_volume',
+    'block_volume_formula', 'column_volume_telescopes', 'total_volume', 'polygon_area_is_shoelace',
     'vertical_connection_geometry', 'vertical_connection_atmosphere',
-    'gravity_cosine_vertical', 'gravity_cosine_horizontal',
-    'horizontal_connection_geometry', 'perpendicular_is_shortest',
-    'polygon_area_is_shoelace', 'untilted_tilt_vector', 'fromgeo_succeeds']]
+    'untilted_tilt_vector', 'gravity_cosine_vertical', 'gravity_cosine_horizontal', 'gravity_cosine_truncated',
+    'horizontal_connection_geometry', 'perpendicular_is_shortest']]
 LEVEL_TEXT = ('Proof over exact arithmetic: Lean theorems about an executable model of fromgeo and the geometry helpers '
               '(block list and connection list equal the announced name lists, in order and orientation, for every geometry, '
               'naming convention, atmosphere type, block order and injective block map; volume formula and telescoping to '
@@ -40,6 +39,8 @@ ASSUMPTIONS = [
 ]
 TRUSTED_EXTRA = ['Model/FromGeo.lean as a model of fromgeo and helpers: diffed against the real code on every run (facet fromgeo)']
 
+HYPS = ['Fresh (cached block_name_list up to date)', 'LayersWF (flat atmosphere layer, tops chain, distinct layer names)',
+        'Nodup of the mapped block names', 'Nodup of the mapped announced connection names', 'parseOk (every block name parses back to its layer and column)']
 RTOL = 1e-9
 CTOL = 1e-12
 SHIPPED = ['g1.dat', 'g2.dat', 'g3.dat', 'g4.dat', 'g5.dat', 'g6.dat', 'g7.dat']
@@ -364,7 +365,7 @@ def decode(line):
     def tok():
         p[0] += 1
         return w[p[0] - 1]
-    r.fresh = tok() == '1'
+    r.hyp = [c == '1' for c in tok()]
     assert tok() == 'T'
     r.tilt_exact = tok() == '1'
     r.tilt = tuple(dec_rat(tok()) for _ in range(3))
@@ -691,9 +692,10 @@ def run(ctx, scale=1.0, oracle_only=False):
                 raise RuntimeError('driver reply: ' + r.raw[:200])
             res.count('model-tilt:' + ('exact' if r.tilt_exact else 'irrational (real tilt vector used)'))
             diffs = compare(geo, blockmap, real, r, res)
-            h = res.hyp.setdefault('Fresh (cached block_name_list up to date)', [0, 0])
-            h[0] += 1 if r.fresh else 0
-            h[1] += 1
+            for name, ok in zip(HYPS, r.hyp):
+                h = res.hyp.setdefault(name, [0, 0])
+                h[0] += 1 if ok else 0
+                h[1] += 1
             if diffs:
                 facet['disagreements'] += 1
                 res.disagreements.append(dict(facet='fromgeo', case=rec, model=diffs[0][:300], impl='(see model field: first difference)'))
